@@ -18,3 +18,23 @@ Theorem C02_names : forall data now scope frames,
          (m_questions (parse data now scope frames) ++ m_answers (parse data now scope frames)).
 Proof. exact parse_names. Qed.
 Print Assumptions C02_names.
+
+(* Whenever the strict RFC 1035 parser accepts a datagram, the library decoder marks it valid and returns the same id, flags,
+   counts, questions and records (unsupported record types are skipped identically by both, so no side condition on types). *)
+From ZC Require Import Spec.Rfc1035 Proofs.C02_strict.
+Theorem C02_strict : forall data now frames m,
+  Forall (fun b => 0 <= b < 256) data -> (130 <= frames)%nat ->
+  strict_parse data now = Some m -> s_supported m = true ->
+  let p := parse data now None frames in
+  m_valid p = true /\ m_escaped p = None /\
+  m_id p = s_id m /\ m_flags p = s_flags m /\
+  m_nq p = s_nq m /\ m_nans p = s_nan m /\ m_nauth p = s_nau m /\ m_nadd p = s_nad m /\
+  m_questions p = s_questions m /\ m_answers p = s_records m.
+Proof. exact parse_agrees_with_strict. Qed.
+Print Assumptions C02_strict.
+
+(* non-vacuity: a response with a compressed PTR target is accepted by the strict parser *)
+Example C02_example :
+  let d := [0;0;132;0;0;0;0;1;0;0;0;0; 1;97;5;108;111;99;97;108;0; 0;12;0;1; 0;0;0;120; 0;4; 1;98;192;14] in
+  match strict_parse d 7 with Some m => s_supported m = true /\ length (s_records m) = 1%nat | None => False end.
+Proof. vm_compute. split; reflexivity. Qed.
